@@ -314,8 +314,13 @@ func (g *reqGen) apply(o op) {
 		case kind >= 100:
 			mk(kind-100, 0x80000000)
 		case !g.haveB || kind == 0:
-			canon = make([]byte, r.Intn(4))
-			r.Read(canon)
+			if r.Intn(2) == 0 {
+				// the literal word 0 (what a context without a request has as its id), then a payload
+				canon = append([]byte{0, 0, 0, 0}, payload...)
+			} else {
+				canon = make([]byte, r.Intn(4))
+				r.Read(canon)
+			}
 			realb = canon
 		case kind == 1 && g.lastReply != nil:
 			realb = g.lastReply
